@@ -41,6 +41,10 @@ BASES = {
     'unsigned char': lambda: fund('unsigned char'),
     'unsigned': lambda: fund('unsigned'),
     'double': lambda: fund('double'),
+    'long int unsigned': lambda: fund('long int unsigned'),
+    'char signed': lambda: fund('char signed'),
+    'int long long': lambda: fund('int long long'),
+    'double long': lambda: fund('double long'),
     'bool': lambda: fund('bool'),
     'void': lambda: fund('void'),
     'Foo': lambda: nm('Foo'),
@@ -285,7 +289,9 @@ class Gen:
             ft = ('F', rt, (), False)
             b, ls = decl.layers(rt)
             # print the function declarator around `name(params)` by hand: the parameter text carries defaults
-            core = [name + '(' + ptxt + ')']
+            conv = self.convention(rt) if op is None else None
+            fn.msvc_convention = conv
+            core = [(conv + ' ' if conv else '') + name + '(' + ptxt + ')']
             head = ' '.join(specs + decl.base_tokens(b) + decl.print_layers(ls, core)) + tail
             self.kinds.add('function returning ' + rt[0])
         e = rng.random()
@@ -301,6 +307,14 @@ class Gen:
             text = head + ';'      # (a GNU attribute after the declarator is not a supported position: parse error)
         ns.functions.append(fn)
         return tmpl_text + self.attr(0.15) + linkage + text
+
+    def convention(self, rt, p=0.15):
+        """an MSVC calling convention, written between the return type and the name; only where the function declarator is not grouped"""
+        b, ls = decl.layers(rt)
+        if self.rng.random() < p and all(l[0] in 'PRM' for l in ls):
+            self.kinds.add('calling convention')
+            return self.rng.choice(['__stdcall', '__cdecl', '__fastcall', '__vectorcall'])
+        return None
 
     def attr2(self):
         return ' __attribute__((noreturn))' if self.rng.random() < 0.08 else ''
@@ -319,9 +333,11 @@ class Gen:
             rt = self.ret_type()
             b, ls = decl.layers(rt)
             const = rng.random() < 0.4
-            core = [cls + '::' + name + '(' + ptxt + ')']
+            conv = self.convention(rt, 0.3)
+            core = [(conv + ' ' if conv else '') + cls + '::' + name + '(' + ptxt + ')']
             text = ' '.join(decl.base_tokens(b) + decl.print_layers(ls, core)) + (' const' if const else '') + ' {}'
-            ns.method_impls.append(T.Method(return_type=real_type(rt), name=nm(*(segs + [name])), parameters=ps, vararg=va, has_body=True, const=const))
+            ns.method_impls.append(T.Method(return_type=real_type(rt), name=nm(*(segs + [name])), parameters=ps, vararg=va, has_body=True, const=const,
+                                            msvc_convention=conv))
         elif kind == 'ctor':
             text = cls + '::' + segs[-1] + '(' + ptxt + ') : a_(1), b_{2} {}'
             ns.method_impls.append(T.Method(return_type=None, name=nm(*(segs + [segs[-1]])), parameters=ps, vararg=va, has_body=True, constructor=True))
@@ -352,10 +368,11 @@ class Gen:
         rt = self.ret_type()
         b, ls = decl.layers(rt)
         const = rng.random() < 0.4
-        core = [cls_txt + '::' + name + '(' + ptxt + ')']
+        conv = self.convention(rt, 0.3)
+        core = [(conv + ' ' if conv else '') + cls_txt + '::' + name + '(' + ptxt + ')']
         text = txt + ' '.join(decl.base_tokens(b) + decl.print_layers(ls, core)) + (' const' if const else '') + ' {}'
         ns.method_impls.append(T.Method(return_type=real_type(rt), name=T.PQName(segs + [T.NameSpecifier(name)]), parameters=ps, vararg=va,
-                                        has_body=True, const=const, template=headers[0] if nheaders == 1 else headers))
+                                        has_body=True, const=const, template=headers[0] if nheaders == 1 else headers, msvc_convention=conv))
         return text
 
     def typedef(self, ns):
@@ -418,7 +435,11 @@ class Gen:
             if rng.random() < 0.4:
                 v = rng.choice([['1'], ['1', '<<', '2'], ['(', 'A', '|', 'B', ')'], ['sizeof', '(', 'int', ')'], ["'x'"]])
             vals.append(T.Enumerator(name=en, value=V(*v) if v else None))
-            txt.append(en + (' = ' + ' '.join(v) if v else ''))
+            at = ''
+            if rng.random() < 0.25:
+                at = ' ' + rng.choice(['[[deprecated]]', '[[maybe_unused]]', '[[deprecated("x")]] [[maybe_unused]]'])
+                self.kinds.add('attributed enumerator')
+            txt.append(en + at + (' = ' + ' '.join(v) if v else ''))
         trailing_comma = ',' if txt and rng.random() < 0.3 else ''
         ns.enums.append(T.EnumDecl(typename=T.PQName([seg], classkey=key), values=vals, base=BASES[base]() if base else None))
         return key + (' ' + name if name else '') + (' : ' + base if base else '') + ' { ' + ', '.join(txt) + trailing_comma + ' };'
@@ -553,6 +574,7 @@ class Gen:
         while budget > 0:
             r = rng.random()
             budget -= 1
+            decl.CV_STYLE = rng.choice([0, 0, 1, 2])       # where const / volatile are written in this item's specifier sequences
             if r < 0.22:
                 out.append(self.variable(ns))
             elif r < 0.40:
@@ -599,7 +621,10 @@ class Gen:
         return '\n'.join(out)
 
     def program(self, budget):
-        src = self.body(self.data.namespace, budget, 0)
+        try:
+            src = self.body(self.data.namespace, budget, 0)
+        finally:
+            decl.CV_STYLE = 0
         return src + '\n'
 
 
